@@ -248,7 +248,6 @@ PROPS = {
         "lean": ["Stackage.Props.C10"],
         "open": "Stackage Stackage.Stk Stackage.Conc",
         "streams": [{"name": "sched", "quick": 3000, "thorough": 60000}],
-        "level": C10_LEVEL,
         "level_text": C10_LEVEL,
         "level_note": "Trusted: Lean kernel; axioms propext, Classical.choice, Quot.sound; extractor (lock-placement facts read syntactically: position of "
                       "lock() relative to the first content read); the scheduler correspondence (bounded enumeration, supporting evidence); sync.Mutex as an "
